@@ -852,6 +852,11 @@ def explore(tu: TU, fname, make_args, static_init=None, max_paths=512):
             out.append({"pc": list(ex.pc), "ret": ret, "effects": ex.effects, "statics": dict(ex.statics), "ex": ex})
         except Infeasible:
             pass
+        except (CUnsupported, Ret):
+            raise
+        except (AttributeError, KeyError, TypeError, IndexError, ValueError, z3.Z3Exception) as e:
+            # a construct the symbolic executor has no model for (pointer arithmetic, memcpy, ...): undecided, never a verdict
+            raise CUnsupported(f"no model for a construct in {fname}: {type(e).__name__}: {e}")
         pending += ex.alts
     return out
 
